@@ -215,10 +215,11 @@ Proof.
   destruct (guard_digit (sub_chars id)) eqn:E.
   - rewrite app_assoc. destruct (gen_default ++ gen_hash_sep) as [|c l]; [discriminate Hd|].
     apply negb_true_iff in Hd. cbn [app]. apply nocase_head. exact Hd.
-  - rewrite <- E. clear E. unfold guard_digit. destruct (needs_guard (sub_chars id)) eqn:N.
+  - assert (Hne : sub_chars id <> []) by (intro Z; rewrite Z in E; cbn in E; discriminate E).
+    rewrite <- E. clear E. unfold guard_digit. destruct (needs_guard (sub_chars id)) eqn:N.
     + destruct gen_digit_prefix as [|c l]; [discriminate Hp|]. apply negb_true_iff in Hp.
       cbn [app]. apply nocase_head. exact Hp.
-    + destruct (sub_chars id) as [|c t] eqn:S; [discriminate|]. (* guard_digit [] = [] cannot be n :: l *)
+    + destruct (sub_chars id) as [|c t] eqn:S; [congruence|].
       cbn [needs_guard] in N. apply orb_false_iff in N as [_ N]. rewrite G, W in N. cbn [andb] in N.
       rewrite Hsep. cbn [app]. unfold sqlite_reserved, sqlite_word in *.
       apply (nocase_ext underscore underscore 115 [113; 108; 105; 116; 101] (c :: t) rest); [discriminate| |exact N].
